@@ -88,7 +88,9 @@ def mij_task(cone, W, N, tier):
     a_exact = exact_alpha(W)
     pre = []
     if np.abs(a_exact - aflat).max() > 1e-6:
-        pre.append(f"alpha from get_alpha_vec {aflat} differs from the KKT oracle {a_exact} (see C17)")
+        # the gap is defined with α_n = max{w_n·u : u ∈ C, ‖u‖ ≤ 1}: a wrong α makes every gap wrong (concrete, replayable)
+        ex.candidate("α_n used by the gap functions = max of w_n·u over unit cone directions",
+                     {"kind": "alpha", "cone": cone, "W": W.tolist()}, {"claim": "alpha", "cone": cone})
 
     def body(ctx):
         V = ctx.reals("v", N, m)
@@ -191,6 +193,19 @@ def replay(case):
         return _replay_f1(case)
     if k == "uncovered":
         return _replay_uncovered(case)
+    if k == "alpha":
+        W = np.array(case["W"], dtype=float)
+        got, want = _alpha_for(W).reshape(-1), exact_alpha(W)
+        # second opinion on the oracle itself: no unit cone direction on a dense sample may beat it, and it is attained
+        rng = np.random.RandomState(0)
+        U = rng.normal(size=(200000, W.shape[1]))
+        U /= np.linalg.norm(U, axis=1, keepdims=True)
+        U = U[np.all(U @ W.T >= 0, axis=1)]
+        samp = (U @ W.T).max(axis=0) if len(U) else np.zeros(len(W))
+        oracle_ok = bool(np.all(samp <= want + 1e-9))
+        bad = bool(np.abs(got - want).max() > 1e-6) and oracle_ok
+        return {"reproduced": bad, "detail": f"get_alpha_vec = {got.tolist()}, max of w_n·u over unit cone directions = {want.tolist()} "
+                f"(sampled lower bounds {np.round(samp, 4).tolist()})"}
     return {"reproduced": False, "detail": "unknown kind"}
 
 
